@@ -48,7 +48,7 @@ class C02(Check):
     PID = 'C02'
     RULE = ('feature cover (every past operator x boundary bounds x duplicated stateful text x n in {1,2,5,9}) then seeded random past formulas '
             '(30% with a forced duplicate stateful sub-term); every update() output compared with the model and with rho at that sample; '
-            '15% of the cases with bounded operators written with explicit units / another default unit / period unit; plus specifications with 1-4 named sub-specifications (nested, repeated); '
+            '15% of the cases with bounded operators written with explicit units / another default unit / period unit; plus specifications with 1-4 named sub-specifications (nested, repeated); plus the four IA-STL semantics with random input/output assignments (values on the thresholds of strict comparisons included); '
             'non-trivial = formula with >= 3 nodes containing a stateful operator; distinct by (formula, data)')
 
     def gen_cases(self, rng, tier):
@@ -75,6 +75,25 @@ class C02(Check):
                 if sp:
                     c['spell'] = sp
             cases.append(c)
+        # the IA-STL online classes (predicates over 'insensitive' variables report +-inf / 0): same statement, semantics of IA.v
+        Pg = lambda c, k: ('pred', c, ('var', 0), ('const', k))
+        ia_base = [Pg('gt', 1), Pg('lt', 1), Pg('geq', 1), Pg('leq', 1), Pg('eq', 1), Pg('neq', 1), ('implies', Pg('gt', 1), ('pred', 'geq', ('var', 1), ('const', 0))),
+                   ('hist', ('or', ('not', Pg('lt', 1)), ('pred', 'geq', ('var', 1), ('const', 1)))), ('and', Pg('geq', 1), ('once', ('pred', 'gt', ('var', 1), ('const', 2)))),
+                   ('histt', 0, 2, ('or', ('oncet', 0, 1, Pg('lt', 1)), ('pred', 'geq', ('var', 1), ('const', 1))))]
+        ia_items = [(f, 2) for f in ia_base for _ in range(3)]
+        for i in range(nrand // 4):
+            nv = rng.choice([1, 2, 2, 3])
+            g = fml.Gen(rng, nvars=nv, future=False, maxb=rng.choice([2, 3]), fancy_arith=False, raw_leaf=0.0)
+            f = g.formula(rng.choice([1, 2, 2, 3]))
+            if fml.size(f) > 40:
+                continue
+            ia_items.append((f, nv))
+        for (f, nv) in ia_items:
+            nv = need_vars(f, nv)
+            n = rng.choice([2, 4, 7, 10])
+            cases.append({'f': f, 'n': n, 'nv': nv, 'cols': fml.gen_trace(rng, nv, n), 'times': list(range(n)),
+                          'sem': rng.choice(['output-robustness', 'input-robustness', 'output-vacuity', 'input-vacuity']),
+                          'io': [rng.randrange(2) for _ in range(nv)], 'ctor': rng.choice(['combined', 'split'])})
         # specifications with named sub-specifications (a sub-formula is then reachable from several roots)
         from harness.modular import gen_modular
         for c in gen_modular(rng, tier, 120, 1500, gen_kwargs={'future': False}, base=False):
@@ -99,10 +118,15 @@ class C02(Check):
         return c
 
     def model_lines(self, c):
-        return ['(on std (%s) %d %s)' % (fml.to_sx(c['f']), c['n'], fml.trace_sx(c['cols']))]
+        pk = 'std'
+        if c.get('sem'):
+            pk = '(iaspec %s (%s))' % (c['sem'], ' '.join(str(b) for b in c['io']))
+        return ['(on %s (%s) %d %s)' % (pk, fml.to_sx(c['f']), c['n'], fml.trace_sx(c['cols']))]
 
     def impl_cases(self, c):
         kw = dict(c.get('spell', {}))
+        if c.get('sem'):
+            kw.update({'io': {fml.VARS[i]: ('input' if c['io'][i] else 'output') for i in range(c['nv'])}, 'semantics': c['sem'], 'ctor': c.get('ctor', 'combined')})
         if 'subs' in c:
             from harness.modular import modular_spec
             kw.update(modular_spec(c))
@@ -142,7 +166,13 @@ class C02(Check):
         return 'ok', None
 
     def describe(self, c):
-        return {'spec': 'out = ' + fml.to_text(c['f']), 'n': c['n'], 'data': c['cols']}
+        d = {'spec': 'out = ' + fml.to_text(c['f']), 'n': c['n'], 'data': c['cols']}
+        if c.get('sem'):
+            d.update({'semantics': c['sem'], 'inputs': [fml.VARS[i] for i in range(c['nv']) if c['io'][i]]})
+        return d
+
+    def features(self, c):
+        return Check.features(self, c) + ([c['sem']] if c.get('sem') else [])
 
 
 def main(tier, seed, replay=None):
